@@ -75,6 +75,8 @@ type scriptPool struct {
 	peerReqs    []pool.PeerRequest
 	updates     int
 	failUpdates int // number of upcoming updates that fail
+	hold        chan struct{} // when set: the next update signals `held` and waits for `hold` before answering
+	held        chan struct{}
 }
 
 func (p *scriptPool) Host(ctx context.Context, req pool.HostRequest) (*pool.HostResponse, error) {
@@ -93,6 +95,14 @@ func (p *scriptPool) Connect(ctx context.Context, req pool.ConnectRequest) (*poo
 	return &pool.ConnectResponse{PoolVersion: "script"}, nil
 }
 func (p *scriptPool) Update(ctx context.Context, req pool.UpdateRequest) (*pool.UpdateResponse, error) {
+	p.mu.Lock()
+	hold, held := p.hold, p.held
+	p.hold, p.held = nil, nil
+	p.mu.Unlock()
+	if hold != nil {
+		close(held)
+		<-hold
+	}
 	p.mu.Lock()
 	defer p.mu.Unlock()
 	p.updates++
@@ -468,6 +478,40 @@ func (c *agentLifeComp) Exec(t []string) (extra []string, out string, eff bool) 
 		return nil, JoinC(res), true
 	case "stop":
 		return nil, withWatchdog(func() string { c.a.Stop(); return "ok" }, 400*time.Millisecond), true
+	case "stop2":
+		// two callers stop the agent at once: both return
+		res := make([]string, 2)
+		var wg sync.WaitGroup
+		for i := 0; i < 2; i++ {
+			wg.Add(1)
+			go func(i int) {
+				defer wg.Done()
+				res[i] = withWatchdog(func() string { c.a.Stop(); return "ok" }, 600*time.Millisecond)
+			}(i)
+		}
+		wg.Wait()
+		sort.Strings(res)
+		return nil, JoinC(res), true
+	case "stopfail":
+		// Stop arrives while a keep-alive is in flight at the pool, and that keep-alive then fails: the loop ends on
+		// its own while Stop is pending, and Stop must still return
+		hold, held := make(chan struct{}), make(chan struct{})
+		c.pool.mu.Lock()
+		c.pool.hold, c.pool.held, c.pool.failUpdates = hold, held, 1
+		c.pool.mu.Unlock()
+		select {
+		case <-held:
+		case <-time.After(time.Second):
+			c.pool.mu.Lock()
+			c.pool.hold, c.pool.held, c.pool.failUpdates = nil, nil, 0
+			c.pool.mu.Unlock()
+			return nil, "no-keepalive", false
+		}
+		stopped := make(chan string, 1)
+		go func() { stopped <- withWatchdog(func() string { c.a.Stop(); return "ok" }, 800*time.Millisecond) }()
+		time.Sleep(30 * time.Millisecond) // Stop is now waiting for the loop
+		close(hold)                       // the keep-alive fails
+		return nil, <-stopped, true
 	case "wait":
 		return nil, withWatchdog(func() string {
 			if err := c.a.Wait(); err != nil {
@@ -536,13 +580,19 @@ func (c *agentLifeComp) Gen(r *rand.Rand, idx int, emit func(string)) {
 			if loops == 0 {
 				ever, loops = true, 1
 			}
-		case k < 13:
+		case k < 12:
 			if ever {
-				emit("stop")
+				emit(pick(r, []string{"stop", "stop", "stop2"}))
 				if loops == 1 {
 					loops = 0
 					results++
 				}
+			}
+		case k < 13:
+			if loops == 1 {
+				emit("stopfail")
+				loops = 0
+				results++
 			}
 		case k < 16:
 			if results > 0 {
